@@ -123,10 +123,11 @@ def tivAdd (a b : Int) : Option Int :=
 
 /-! ### Time (U96F32) -/
 
-/-- `Add<Duration> for Time`: subtract or add `unsigned_abs` on `u128`. -/
+/-- `Add<Duration> for Time`: subtract or add `unsigned_abs` on `u128`. Since the `fix:` commit the
+subtraction saturates at zero (before: underflow); the addition still overflows at 2^128. -/
 def timeAddDur (t : Nat) (d : Int) : Option Nat :=
   let r : Int := (t : Int) + d
-  if inU128 r then some r.toNat else none
+  if r < 0 then some 0 else if inU128 r then some r.toNat else none
 
 /-- `Sub<Duration> for Time` is `self + -rhs`. -/
 def timeSubDur (t : Nat) (d : Int) : Option Nat :=
